@@ -8,6 +8,7 @@ import json
 import os
 
 import vlib
+import b2fmech
 import b2fcommon as bc
 
 
@@ -19,6 +20,7 @@ def run(ctx):
     traces = ctx.path("traces.ndjson")
     scen = ctx.path("scen.ndjson")
     accepted = total = 0
+    mech = {"accepted": 0, "total": 0, "skipped": 0}
     stats_all = []
     for gz in (("0", "1") if not quick else ("0", "1")):
         n = (250 if gz == "0" else 60) if quick else (5000 if gz == "0" else 1000)
@@ -34,6 +36,15 @@ def run(ctx):
                                                 name="tv-gz" + gz)
         accepted += acc
         total += st["traces"]
+        # mechanism level: the same executions must be behaviours of B2F.tla (silent steps inferred); a rejection here that
+        # the monitor does not share is reported as SPEC-DRIFT, not as a violation
+        macc, mtot, mskip, drift = b2fmech.validate(ctx, vlib.read_ndjson(traces), name="mech-gz" + gz)
+        mech["accepted"] += macc
+        mech["total"] += mtot
+        mech["skipped"] += mskip
+        for dline in drift[:5]:
+            print("SPEC-DRIFT: " + dline[:400])
+        ctx.drift += drift[:20]
         if rejected:
             rows = vlib.read_ndjson(traces)
             scens = vlib.read_ndjson(scen)
@@ -51,6 +62,7 @@ def run(ctx):
         "samples": [sample],
         "exhaustive": False,
         "runs": stats_all,
+        "mechanism_traces_validated": mech,
     }, ["TLC", "wire lexer (harness/internal/b2f/lexer.go) written from docs/F6FBB-B2F", "bitwise CRC-16/XMODEM",
         "content identity = bytes.Equal(queued serialisation, delivered serialisation)",
         "in-memory duplex scheduler gives happens-before event order"])
